@@ -70,7 +70,7 @@ def _cls(kind, n):
     import sys
     mod = types.ModuleType("verif_iter_" + name)
     sys.modules[mod.__name__] = mod
-    exec(src, mod.__dict__)
+    exec(compile(src, "<verif-generated>", "exec", dont_inherit=True), mod.__dict__)
     _CLASSES[key] = mod.__dict__[name]
     return _CLASSES[key]
 
